@@ -450,6 +450,9 @@ def build(case):
     tr = gen.make_track([tuple(p) for p in case["xyz"]], times_ms=case["times_ms"])
     for k in NAMES:
         tr.createAnalyticalFeature(k, list(case["feat"][k]))
+    if (n + int(case["times_ms"][0] // 500)) % 4 == 0:
+        # the track handed to the evaluator is itself the product of another public operation (same values)
+        tr, _how = gen.derive(tr, (case["xyz"], case["times_ms"]))
     env = {k: list(v) for k, v in case["feat"].items()}
     env["x"] = [p[0] for p in case["xyz"]]
     env["y"] = [p[1] for p in case["xyz"]]
